@@ -448,13 +448,133 @@ def extract_dow(wdb: Path, timepy: Path) -> str:
             f'Definition dayofweek_values : list Z := [{vals}].\n')
 
 
+# ---------------------------------------------------------------------------------------------
+# oag.py: CSVEntry.from_csv_row — the CSV conventions (strict shapes; the constants become parameters)
+# ---------------------------------------------------------------------------------------------
+
+def _same(node: ast.AST, src: str) -> bool:
+    want = ast.parse(src).body[0]
+    return dump(node) == dump(want)
+
+
+def extract_parsing(oag: Path) -> str:
+    where = 'oag.py:CSVEntry.from_csv_row'
+    fn = find_function(_parse(oag), 'from_csv_row', cls='CSVEntry')
+    body = strip_doc(fn.body)
+    if len(body) != 1 or not isinstance(body[0], ast.Try):
+        raise Untranslatable(f'{where}: body must be one try/except')
+    tr = body[0]
+    if not (len(tr.handlers) == 1 and ast.unparse(tr.handlers[0].type) == 'Exception' and not tr.orelse
+            and not tr.finalbody and isinstance(tr.handlers[0].body[-1], ast.Return)
+            and ast.unparse(tr.handlers[0].body[-1]) == 'return None'):
+        raise Untranslatable(f'{where}: a failing conversion must be caught and the row dropped (return None)')
+    stmts = tr.body
+    helpers = {s.name: s for s in stmts if isinstance(s, ast.FunctionDef)}
+    for h in ('make_date', 'make_time', 'optional', 'convert_arrday'):
+        if h not in helpers:
+            raise Untranslatable(f'{where}: helper {h} not found')
+    # make_date
+    md = helpers['make_date']
+    consts = [n.value for n in ast.walk(md) if isinstance(n, ast.Constant) and isinstance(n.value, (str, int))
+              and not isinstance(n.value, bool)]
+    markers = [c for c in consts if isinstance(c, str) and len(c) == 8]
+    ints = [c for c in consts if isinstance(c, int)]
+    ints = sorted(ints)
+    if len(markers) != 2 or len(ints) != 4 or ints[0] != ints[1] or ints[2] != ints[3]:
+        raise Untranslatable(f'{where}: make_date constants {consts}')
+    k1, k2 = ints[2], ints[0]
+    src_md = ast.unparse(md)
+    markers.sort(key=src_md.index)
+    if not _same(md, f"def make_date(t: str) -> date | None:\n    if t == {markers[0]!r} or t == {markers[1]!r}:\n"
+                     f"        return None\n    tint = int(t)\n"
+                     f"    return date(tint // {k1}, tint % {k1} // {k2}, tint % {k2})"):
+        raise Untranslatable(f'{where}: make_date changed shape')
+    # make_time
+    mt = helpers['make_time']
+    ints = [n.value for n in ast.walk(mt) if isinstance(n, ast.Constant) and isinstance(n.value, int)]
+    if len(ints) != 2 or ints[0] != ints[1] or not _same(
+            mt, f"def make_time(t: str) -> TimeOfDay:\n    tint = int(t)\n"
+                f"    return TimeOfDay(hour=tint // {ints[0]}, minute=tint % {ints[0]})"):
+        raise Untranslatable(f'{where}: make_time changed shape')
+    kt = ints[0]
+    # convert_arrday
+    ca = helpers['convert_arrday']
+    if not (len(ca.body) == 1 and isinstance(ca.body[0], ast.Match) and ast.unparse(ca.body[0].subject) == 't'
+            and len(ca.body[0].cases) == 3):
+        raise Untranslatable(f'{where}: convert_arrday must be a three-way match on t')
+    c_prev, c_blank, c_else = ca.body[0].cases
+    if not (isinstance(c_prev.pattern, ast.MatchValue) and isinstance(c_prev.pattern.value, ast.Constant)
+            and isinstance(c_prev.pattern.value.value, str) and len(c_prev.body) == 1
+            and isinstance(c_prev.body[0], ast.Return)):
+        raise Untranslatable(f'{where}: convert_arrday first case')
+    prev_code, prev_val = c_prev.pattern.value.value, int(_num(c_prev.body[0].value, where))
+    pats = c_blank.pattern.patterns if isinstance(c_blank.pattern, ast.MatchOr) else [c_blank.pattern]
+    blanks = []
+    for p_ in pats:
+        if not (isinstance(p_, ast.MatchValue) and isinstance(p_.value, ast.Constant) and isinstance(p_.value.value, str)):
+            raise Untranslatable(f'{where}: convert_arrday blank case')
+        blanks.append(p_.value.value)
+    if not (len(c_blank.body) == 1 and isinstance(c_blank.body[0], ast.Return)):
+        raise Untranslatable(f'{where}: convert_arrday blank case body')
+    blank_val = int(_num(c_blank.body[0].value, where))
+    if not (isinstance(c_else.pattern, ast.MatchAs) and c_else.pattern.pattern is None and c_else.guard is None
+            and len(c_else.body) == 1 and ast.unparse(c_else.body[0]) == 'return int(t)'):
+        raise Untranslatable(f'{where}: convert_arrday default case must be int(t)')
+    if c_prev.guard is not None or c_blank.guard is not None:
+        raise Untranslatable(f'{where}: convert_arrday guards')
+    # optional
+    if not _same(helpers['optional'], "def optional(t: str) -> str | None:\n    return t if t else None"):
+        raise Untranslatable(f'{where}: optional changed')
+    # days loop
+    rest = [s for s in stmts if not isinstance(s, ast.FunctionDef)]
+    srcs = [ast.unparse(s) for s in rest]
+    if len(rest) != 6:
+        raise Untranslatable(f'{where}: expected validity test, days, days loop, flight number (2), return; got {len(rest)}')
+    if srcs[0] != 'if not cls.is_row_valid(row):\n    return None' or srcs[1] != 'days = set()':
+        raise Untranslatable(f'{where}: prologue changed')
+    loop = rest[2]
+    rng = [n for n in ast.walk(loop) if isinstance(n, ast.Call) and ast.unparse(n.func) == 'range']
+    if len(rng) != 1 or len(rng[0].args) != 2:
+        raise Untranslatable(f'{where}: days loop range')
+    lo, hi = int(_num(rng[0].args[0], where)), int(_num(rng[0].args[1], where))
+    if srcs[2] != (f"if row.get('days'):\n    for day in range({lo}, {hi}):\n        if str(day) in row['days']:\n"
+                   "            days.add(DayOfWeek(day))"):
+        raise Untranslatable(f'{where}: days loop changed')
+    if srcs[3] != "fltno = row.get('fltno')" or \
+            srcs[4] != "if fltno is None or fltno == '':\n    fltno = 0\nelse:\n    fltno = int(fltno)":
+        raise Untranslatable(f'{where}: flight number handling changed')
+    ret = rest[5]
+    if not (isinstance(ret, ast.Return) and isinstance(ret.value, ast.Call) and ast.unparse(ret.value.func) == 'cls'
+            and not ret.value.args):
+        raise Untranslatable(f'{where}: must end with return cls(...)')
+    got = {k.arg: ast.unparse(k.value) for k in ret.value.keywords}
+    want = {'line': 'line', 'carrier': "row['carrier']", 'fltno': 'fltno', 'depapt': "row['depapt']",
+            'depctry': "optional(row.get('depctry', ''))", 'arrapt': "row['arrapt']",
+            'arrctry': "optional(row.get('arrctry', ''))", 'deptim': "make_time(row['deptim'])",
+            'arrtim': "make_time(row['arrtim'])", 'arrday': "convert_arrday(row['arrday'])", 'days': 'days',
+            'distance': "int(row['distance'])", 'service': "row['service']", 'inpacft': "row['inpacft']",
+            'seats': "int(row['seats'])", 'efffrom': "make_date(row['efffrom'])", 'effto': "make_date(row['effto'])",
+            'stops': "int(row['stops'])", 'longest': "row['longest'] == 'L'"}
+    if got != want:
+        diff = {k: (got.get(k), want.get(k)) for k in set(got) | set(want) if got.get(k) != want.get(k)}
+        raise Untranslatable(f'{where}: field mapping changed: {diff}')
+    bl = '[' + '; '.join(coq_string(b) for b in blanks) + ']'
+    return (f'Definition src_parse_date := parse_date_gen [{coq_string(markers[0])}; {coq_string(markers[1])}] '
+            f'({k1})%Z ({k2})%Z.\n'
+            f'Definition src_parse_time := parse_time_gen ({kt})%Z.\n'
+            f'Definition src_parse_arrday := parse_arrday_gen {coq_string(prev_code)} ({prev_val})%Z {bl} ({blank_val})%Z.\n'
+            f'Definition src_parse_days := parse_days_gen ({lo})%Z ({hi})%Z.\n')
+
+
+
 def extract_all(repo: Path) -> str:
     src = Path(repo) / 'src' / 'AEIC'
     head = ('(* generated by translator/c13_extract.py from the current working tree — do not edit *)\n'
             'From Coq Require Import ZArith List String Bool Ascii.\n'
-            'From AV Require Import lib.Dates model.C13_Model.\n'
+            'From AV Require Import lib.Dates model.C13_Model model.C13_Parse.\n'
             'Import ListNotations.\nOpen Scope Z_scope.\n\n')
     return (head + extract_row_valid(src / 'missions/oag.py') + '\n'
             + extract_add(src / 'missions/oag.py', src / 'units.py') + '\n'
             + extract_distance_check(src / 'missions/writable_database.py') + '\n'
-            + extract_dow(src / 'missions/writable_database.py', src / 'types/time.py'))
+            + extract_dow(src / 'missions/writable_database.py', src / 'types/time.py') + '\n'
+            + extract_parsing(src / 'missions/oag.py'))
